@@ -52,13 +52,7 @@ fn association_configs() -> Vec<Config> {
     let inert = |m: f64, sigma: f64, eps: f64| PcSaftRecord::new(m, sigma, eps, None, None, None, None, None, None, None, None, None, None);
     let mk = |name: &str, recs: Vec<PcSaftRecord>, t_scale: f64, core: bool| {
         let n = recs.len();
-        Config {
-            name: name.into(),
-            model: Arc::new(ResidualModel::PcSaft(PcSaft::new(Arc::new(PcSaftParameters::from_model_records(recs).unwrap())))),
-            ncomp: n,
-            t_scale,
-            core,
-        }
+        configs::cfg_of(name, ResidualModel::PcSaft(PcSaft::new(Arc::new(PcSaftParameters::from_model_records(recs).unwrap()))), n, t_scale, core)
     };
     vec![
         // one C site on each of two components
@@ -764,6 +758,7 @@ fn consistency_sweep(full: bool, seed: u64, only: &Option<String>) -> Value {
     let mut worst = 0.0f64;
     let mut worst_case = json!(null);
     let mut per_config = Vec::new();
+    let mut all_states: Vec<Value> = Vec::new();
     let mut failures: Vec<Value> = Vec::new();
     let mut panics: Vec<Value> = Vec::new();
     for c in &cfgs {
@@ -804,6 +799,7 @@ fn consistency_sweep(full: bool, seed: u64, only: &Option<String>) -> Value {
                 }
             }
             cw = cw.max(sw);
+            all_states.push(json!([c.name, density_fraction(c, &rs), sw]));
             if let Some((by, direct, x, y, key)) = sc {
                 let case = json!({"config": c.name, "state_TVN": rs.vars(), "key": key, "history": [by.name(), direct.name()],
                                   "by_product_value": x, "direct_value": y, "rel_dev": if sw.is_finite() { json!(sw) } else { json!("inf") }});
@@ -829,7 +825,14 @@ fn consistency_sweep(full: bool, seed: u64, only: &Option<String>) -> Value {
     }
     json!({"configurations": per_config.len(), "states": evaluated, "comparisons": comparisons,
            "worst_rel": if worst.is_finite() { json!(worst) } else { json!("inf") }, "worst_case": worst_case,
-           "per_config": per_config, "failures": failures, "panics": panics})
+           "per_config": per_config, "states_fraction_dev": all_states, "failures": failures, "panics": panics})
+}
+
+/// density of the state as a fraction of the model's maximum density
+fn density_fraction(c: &Config, rs: &RState) -> f64 {
+    let n = Array1::from_vec(rs.n.clone());
+    let ntot: f64 = rs.n.iter().sum();
+    (ntot / rs.v) / c.model.compute_max_density(&n)
 }
 
 // ------------------------------------------------------------------------------------------------
